@@ -2117,7 +2117,7 @@ pub struct InfoTool {
 pub fn info_tool_cases() -> Vec<InfoTool> {
     let mut v = vec![];
     // totals whose three-digit groups take every padding shape: 5, 1,005, 12,003, 1,000,007,
-    // 1,050,000, 999, 1,000, 2,030,405
+    // 1,050,000, 999, 1,000, 2,030,405, 61
     let shapes: Vec<Vec<(u32, u32)>> = vec![
         vec![(0, 5)],
         vec![(0, 1005)],
@@ -2128,6 +2128,13 @@ pub fn info_tool_cases() -> Vec<InfoTool> {
         vec![(0, 1000)],
         vec![(0, 2_000_000), (2_100_000, 2_130_000), (2_200_000, 2_200_405)],
         vec![(0, 50), (50, 60), (100, 101)],
+        // groups that are exact powers of ten: 2,010, 1,001, 3,100, 1,000,001, 1,010,100, 2,100,010
+        vec![(0, 2010)],
+        vec![(0, 1001)],
+        vec![(7, 3107)],
+        vec![(0, 1_000_000), (1_500_000, 1_500_001)],
+        vec![(0, 1_010_000), (1_500_000, 1_500_100)],
+        vec![(0, 2_100_000), (2_500_000, 2_500_010)],
     ];
     for bed in [false, true] {
         for sp in &shapes {
